@@ -810,6 +810,7 @@ func (p *Parser) primary() (ast.Expr, error) {
 
 func (p *Parser) objectLiteral() (ast.Expr, error) {
 	properties := make(map[string]ast.Expr)
+	keys := []token.Token{}
 
 	for !p.check(token.RIGHT_BRACE) && !p.isAtEnd() {
 		propName, err := p.consume(token.IDENTIFIER, "Expect property name. Must be a string.")
@@ -830,7 +831,10 @@ func (p *Parser) objectLiteral() (ast.Expr, error) {
 		}
 
 		// fmt.Printf("%#v ---- %#v\n", propName, propValue)
-		// Store the property in the map
+		// Store the property in the map, remembering the source order of the names
+		if _, seen := properties[propName.Lexeme]; !seen {
+			keys = append(keys, propName)
+		}
 		properties[propName.Lexeme] = propValue
 
 		// If there's no comma, break out of the loop
@@ -844,7 +848,7 @@ func (p *Parser) objectLiteral() (ast.Expr, error) {
 	if err != nil {
 		return nil, err
 	}
-	return &ast.ObjectLiteral{Properties: properties}, nil
+	return &ast.ObjectLiteral{Properties: properties, Keys: keys}, nil
 }
 
 // New function to handle array literals
